@@ -19,12 +19,39 @@ pub fn lib_outcome(o: Option<Outcome>) -> Result<Option<MOutcome>, String> {
 pub fn check_pos(ctx: &mut Ctx, mp: &MPos, b: &Board) {
     let case = format!("pos:{}", mfen::to_xfen(mp));
     let legal = mp.legal_moves();
+    // classes of applicable outcomes: forced > mandatory > claimable; within a class any
+    // applicable reason is acceptable (the property fixes precedence between classes only)
+    let forced: Option<MOutcome> = if legal.is_empty() { Some(if mp.in_check() { MOutcome::Checkmate(!mp.white_to_move) } else { MOutcome::Stalemate }) } else { None };
+    let mut mandatory: Vec<MOutcome> = Vec::new();
+    if mp.insufficient_material() {
+        mandatory.push(MOutcome::Insufficient);
+    }
+    if mp.halfmove >= 150 {
+        mandatory.push(MOutcome::Moves75);
+    }
+    let claimable: Vec<MOutcome> = if mp.halfmove >= 100 { vec![MOutcome::Moves50] } else { vec![] };
+    let ok_draw = |g: &Option<MOutcome>| -> bool {
+        if !mandatory.is_empty() {
+            matches!(g, Some(x) if mandatory.contains(x))
+        } else if !claimable.is_empty() {
+            matches!(g, Some(x) if claimable.contains(x))
+        } else {
+            g.is_none()
+        }
+    };
     let want = mp.outcome();
     ctx.eval(4);
     if let Some(o) = ctx.guard("calc_outcome", &case, || b.calc_outcome()) {
         match lib_outcome(o) {
-            Ok(got) if got == want => {}
-            Ok(got) => ctx.violation("calc_outcome", &case, &format!("library {:?} rules {:?}", got, want)),
+            Ok(got) => {
+                let ok = match &forced {
+                    Some(f) => got.as_ref() == Some(f),
+                    None => ok_draw(&got),
+                };
+                if !ok {
+                    ctx.violation("calc_outcome", &case, &format!("library {:?}; forced {:?} mandatory {:?} claimable {:?}", got, forced, mandatory, claimable));
+                }
+            }
             Err(e) => ctx.violation("calc_outcome_reason", &case, &format!("reason {} can never apply to a bare position; rules say {:?}", e, want)),
         }
     }
@@ -34,11 +61,9 @@ pub fn check_pos(ctx: &mut Ctx, mp: &MPos, b: &Board) {
         }
     }
     if let Some(d) = ctx.guard("calc_draw_simple", &case, || b.calc_draw_simple()) {
-        let got = lib_outcome(d.map(Outcome::Draw));
-        let want_d = mp.draw_simple();
-        match got {
-            Ok(g) if g == want_d => {}
-            other => ctx.violation("calc_draw_simple", &case, &format!("library {:?} rules {:?}", other, want_d)),
+        match lib_outcome(d.map(Outcome::Draw)) {
+            Ok(g) if ok_draw(&g) => {}
+            other => ctx.violation("calc_draw_simple", &case, &format!("library {:?}; mandatory {:?} claimable {:?}", other, mandatory, claimable)),
         }
     }
     if let Some(c) = ctx.guard("is_check", &case, || b.is_check()) {
@@ -79,6 +104,9 @@ pub fn check_pos(ctx: &mut Ctx, mp: &MPos, b: &Board) {
     }
     if pseudo_n > 0 && legal.is_empty() && mp.pseudo_moves().iter().any(|m| m.kind == MKind::EnPassant) {
         ctx.feature("no_legal_move_but_pseudo_en_passant");
+        if !mp.in_check() {
+            ctx.feature("stalemate_with_pseudo_legal_en_passant");
+        }
     }
     if want.is_some() || others <= 3 || mp.halfmove >= 99 {
         ctx.nontrivial(&mp.full_key());
